@@ -1059,6 +1059,12 @@ def capture(numel, kind):
         n = int(rng.integers(2, numel * numel + 1))
         pairs = rng.permutation(numel * numel)[:n]
         tx, rx = pairs // numel, pairs % numel
+    if kind == "sub-aperture-fmc":
+        # only the elements lo .. numel-1 fire and receive (a sub-aperture of the array): element 1 never appears
+        lo = int(rng.integers(1, numel)) if numel > 1 else 0
+        act = np.arange(lo, numel)
+        tx = np.repeat(act, len(act))
+        rx = np.tile(act, len(act))
     if kind == "shuffled-fmc":
         tx = np.repeat(np.arange(numel), numel)
         rx = np.tile(np.arange(numel), numel)
@@ -1194,7 +1200,7 @@ def check_brain(numel, kind, S, reader, layout="SN", idx_dtype=np.float64, timem
         nontrivial.add(("brain", reader, kind, N, S, np.dtype(idx_dtype).name))
 
 
-KINDS = ["fmc", "fmc-rx-major", "hmc", "hmc-lower", "random", "shuffled-fmc"]
+KINDS = ["fmc", "fmc-rx-major", "hmc", "hmc-lower", "random", "shuffled-fmc", "sub-aperture-fmc"]
 DTYPES = [np.float64, np.uint8, np.uint16, np.int32, np.float32]
 for reader in ("scipy", "hdf5"):
     for kind in KINDS:
